@@ -1,5 +1,5 @@
 #!/usr/bin/env python3
-"""Regenerate sa/localnames.json and sa/compares.json: per outermost function of the package, the
+"""Regenerate sa/localnames.json, sa/compares.json and sa/iftests.json: per outermost function of the package, the
 plain locals in order of first binding with a hash of the binding's shape
 (see sa/alpha.py).  Run against the tree the rules were written for.
 
@@ -17,7 +17,8 @@ from sa import alpha  # noqa: E402
 root = sys.argv[1] if len(sys.argv) > 1 else '/repo'
 out = {}
 cmps = {}
-nf = nl = nc = 0
+ifs = {}
+nf = nl = nc = ni = 0
 for dp, dn, fns in os.walk(os.path.join(root, 'asyncssh')):
     dn[:] = sorted(d for d in dn if d != '__pycache__')
     for f in sorted(fns):
@@ -28,6 +29,11 @@ for dp, dn, fns in os.walk(os.path.join(root, 'asyncssh')):
                 t = alpha.table_of(ast.parse(fh.read()))
             with open(p, encoding='utf-8') as fh:
                 c = alpha.compares_of(ast.parse(fh.read()))
+            with open(p, encoding='utf-8') as fh:
+                i = alpha.iftests_of(ast.parse(fh.read()))
+            if i:
+                ifs[rel] = i
+                ni += sum(len(v) for v in i.values())
             if c:
                 cmps[rel] = c
                 nc += sum(len(v) for v in c.values())
@@ -41,4 +47,7 @@ with open(alpha.TABLE, 'w', encoding='utf-8') as fh:
 with open(alpha.COMPARES, 'w', encoding='utf-8') as fh:
     json.dump(cmps, fh, indent=0, sort_keys=True)
     fh.write('\n')
-print(f'{nc} comparisons; {nl} locals of {nf} functions in {len(out)} modules')
+with open(alpha.IFTESTS, 'w', encoding='utf-8') as fh:
+    json.dump(ifs, fh, indent=0, sort_keys=True)
+    fh.write('\n')
+print(f'{ni} if/else tests; {nc} comparisons; {nl} locals of {nf} functions in {len(out)} modules')
